@@ -398,3 +398,29 @@ func (l *l4list) BadL5remove(key uint16) bool {
 	}
 	return false
 }
+
+// BadI4Late advances the counter before it knows whether the stream negotiated the extension.
+type BadI4Late struct {
+	interceptor.NoOp
+	next uint32
+}
+
+func (g *BadI4Late) BindLocalStream(info *interceptor.StreamInfo, w interceptor.RTPWriter) interceptor.RTPWriter {
+	var id uint8
+	for _, e := range info.RTPHeaderExtensions {
+		if e.URI == fxTransportCCURI {
+			id = uint8(e.ID)
+			break
+		}
+	}
+	return interceptor.RTPWriterFunc(func(h *rtp.Header, p []byte, a interceptor.Attributes) (int, error) {
+		seq := atomic.AddUint32(&g.next, 1) - 1
+		if id == 0 {
+			return w.Write(h, p, a)
+		}
+		if err := h.SetExtension(id, []byte{byte(seq >> 8), byte(seq)}); err != nil {
+			return 0, err
+		}
+		return w.Write(h, p, a)
+	})
+}
